@@ -21,6 +21,21 @@ def main() -> None:
                 return super().now(tz) + _dt.timedelta(seconds=shift)
 
         _dt.datetime = _D  # type: ignore[misc]
+    enc = a.get("default_text_encoding")
+    if enc:
+        # emulate a host whose default text encoding is not UTF-8 (a latin-1 locale, Windows code pages): every text-mode
+        # open() that does not name an encoding gets this one - exactly what the interpreter would do on such a host
+        import builtins
+        import io
+
+        real_open = io.open
+
+        def host_open(file, mode="r", buffering=-1, encoding=None, errors=None, newline=None, closefd=True, opener=None):
+            if "b" not in mode and encoding in (None, "locale"):
+                encoding = enc
+            return real_open(file, mode, buffering, encoding, errors, newline, closefd, opener)
+
+        io.open = builtins.open = host_open  # type: ignore[assignment]
     from vmon import genrun
 
     r = genrun.generate({}, Path(a["root"]), a["pkg"], a.get("core"), force=a.get("force", True), strategy=a.get("strategy", "operationId"),
